@@ -1,6 +1,7 @@
 import RoaringModel.Lemmas.BitmapOps
 import RoaringModel.Lemmas.BitmapSearchOps
 import RoaringModel.Lemmas.BitmapOrAssign
+import RoaringModel.Lemmas.BitmapAndAssign
 /-!
 # C02 — 32-bit set algebra is exactly union / intersection / difference / symmetric difference
 
@@ -8,23 +9,23 @@ Statement shape (DESIGN §8): for well-formed operands the result is well-formed
 *is* the SPEC operation on the operands' element lists (`Spec.sOr / sAnd / sSub / sXor`, whose membership
 laws are `Spec.mem_sOr` … in `Lemmas/AlgebraSpec.lean`).
 
-Proved here, for all well-formed `a b`:
-* `&a | &b`, `&a & &b`, `&a - &b`, `&a ^ &b` (the four `Pairs` loops of ops.rs), `&a - b` (delegates),
-* `a ^= b`, `a ^= &b` and their wrappers `a ^ b`, `a ^ &b`, `&a ^ b` (the other two `Pairs` loops),
-* `a &= &b`, `a -= &b` (the `retain_mut` + `binary_search_by_key` loops, shown to visit the same chunk pairs
-  as the merge-join) and everything that delegates to them: `a & &b`, `&a & b`, `a -= b`, `a - b`, `a - &b`,
-down to the per-kind store dispatch, the scalar merges, the in-place `retain` forms and
-`ensure_correct_store`.
+Proved here, for all well-formed `a b`, **for all 4 operators × 6 forms** (`C02_<op>_<form>_partial`,
+form ∈ {oo, or, ro, rr, ao, ar}), each mirroring its own code path:
+* `&a op &b` — the four `Pairs` merge-join loops; `a ^= b`, `a ^= &b` — two more `Pairs` loops;
+* `a &= &b`, `a -= &b` — `retain_mut` + `binary_search_by_key`, shown to visit the same chunk pairs;
+* `a &= b` — operand swap on `containers.len()`, matched rhs chunk moved out (`mem::replace`);
+* `a |= b` (operand swap on `len()`), `a |= &b` — the insert-or-merge loop (`binary_search` + `Vec::insert`);
+* the wrappers, delegating exactly as ops.rs does (including the exchanged operands of `&a | b`, `&a & b`,
+  `&a ^ b`, for which commutativity of the SPEC operation is proved);
+down to the per-kind store dispatch, the scalar merges, the in-place `retain` forms with the galloping
+index, and `ensure_correct_store`.  `C02_<op>_forms_agree_partial`: all six forms of one operator have
+the same elements (and are all well-formed, so structurally equal by C04's canonical-form theorem).
 
 Every theorem is `_partial` for one reason only: the bitset-level kernel facts (`op_bitmaps`, the per-bit
 array folds, `to_array_store` / `to_bitmap_store`) are taken as the *named hypothesis* `K : BKernel`
 (`Lemmas/StoreOps.lean`); they are proved by the core proof library in parallel and discharge `K`
 mechanically once merged.
 
-GAPS (not yet proved, listed in bin/propcfg/C02.py): the insert-or-merge loops `a |= b` (with the
-`len()`-based operand swap) and `a |= &b`, and `a &= b` (operand swap on `containers.len()`, matched rhs
-chunk moved out) — hence also `a | b`, `a | &b`, `&a | b`, `a & b` — are not yet connected to the `Pairs`
-form; `C02_*_forms_agree` is therefore complete for `-` and `^` only.
 "Borrowed operands are left unchanged" is not a theorem of a functional model (DESIGN §8 C02).
 -/
 namespace Roaring.C02
@@ -149,6 +150,33 @@ theorem C02_sub_forms_agree_partial (K : BKernel) (a b : Bitmap) (ha : a.WF) (hb
   · exact (C02_sub_ao_partial K a b ha hb).2.trans h0.symm
   · exact (C02_sub_ar_partial K a b ha hb).2.trans h0.symm
 
+/-- `a &= b` (owned): whichever way the `containers.len()`-based operand swap goes -/
+theorem C02_and_ao_partial (K : BKernel) : Exact andAO Spec.sAnd := by
+  intro a b ha hb
+  have hsa := sorted_elems K a ha
+  have hsb := sorted_elems K b hb
+  rw [andAO_eq a b ha hb]
+  split
+  · have := pairsOp_elems_eq K (pairSpec_andAO K) b a hb ha _ (Spec.sorted_sAnd _ _ hsb hsa)
+      (fun y => Spec.mem_sAnd _ _ hsb hsa y)
+    exact ⟨this.1, by rw [C02_sAnd_comm _ _ hsa hsb]; exact this.2⟩
+  · exact pairsOp_elems_eq K (pairSpec_andAO K) a b ha hb _ (Spec.sorted_sAnd _ _ hsa hsb)
+      (fun y => Spec.mem_sAnd _ _ hsa hsb y)
+
+/-- `a & b` is `a &= b` (ops.rs:187). -/
+theorem C02_and_oo_partial (K : BKernel) : Exact andOO Spec.sAnd := C02_and_ao_partial K
+
+theorem C02_and_forms_agree_partial (K : BKernel) (a b : Bitmap) (ha : a.WF) (hb : b.WF) (fm : Form) :
+    elems (binop .and fm a b) = elems (andRR a b) := by
+  have h0 := (C02_and_rr_partial K a b ha hb).2
+  cases fm
+  · exact (C02_and_oo_partial K a b ha hb).2.trans h0.symm
+  · exact (C02_and_or_partial K a b ha hb).2.trans h0.symm
+  · exact (C02_and_ro_partial K a b ha hb).2.trans h0.symm
+  · rfl
+  · exact (C02_and_ao_partial K a b ha hb).2.trans h0.symm
+  · exact (C02_and_ar_partial K a b ha hb).2.trans h0.symm
+
 /-! ### the insert-or-merge loops of `|=` -/
 
 theorem C02_sOr_comm (l r : List Nat) (hl : Sorted l) (hr : Sorted r) : Spec.sOr l r = Spec.sOr r l := by
@@ -192,6 +220,37 @@ theorem C02_or_forms_agree_partial (K : BKernel) (a b : Bitmap) (ha : a.WF) (hb 
   · rfl
   · exact (C02_or_ao_partial K a b ha hb).2.trans h0.symm
   · exact (C02_or_ar_partial K a b ha hb).2.trans h0.symm
+
+/-- **C02, all operators and forms at once**: the result is well-formed and is exactly the SPEC operation. -/
+theorem C02_all_forms_partial (K : BKernel) (op : BinOp) (fm : Form) (a b : Bitmap) (ha : a.WF) (hb : b.WF) :
+    (binop op fm a b).WF ∧ elems (binop op fm a b) =
+      (match op with
+       | .or => Spec.sOr | .and => Spec.sAnd | .sub => Spec.sSub | .xor => Spec.sXor) (elems a) (elems b) := by
+  cases op <;> cases fm
+  · exact C02_or_oo_partial K a b ha hb
+  · exact C02_or_or_partial K a b ha hb
+  · exact C02_or_ro_partial K a b ha hb
+  · exact C02_or_rr_partial K a b ha hb
+  · exact C02_or_ao_partial K a b ha hb
+  · exact C02_or_ar_partial K a b ha hb
+  · exact C02_and_oo_partial K a b ha hb
+  · exact C02_and_or_partial K a b ha hb
+  · exact C02_and_ro_partial K a b ha hb
+  · exact C02_and_rr_partial K a b ha hb
+  · exact C02_and_ao_partial K a b ha hb
+  · exact C02_and_ar_partial K a b ha hb
+  · exact C02_sub_oo_partial K a b ha hb
+  · exact C02_sub_or_partial K a b ha hb
+  · exact C02_sub_ro_partial K a b ha hb
+  · exact C02_sub_rr_partial K a b ha hb
+  · exact C02_sub_ao_partial K a b ha hb
+  · exact C02_sub_ar_partial K a b ha hb
+  · exact C02_xor_oo_partial K a b ha hb
+  · exact C02_xor_or_partial K a b ha hb
+  · exact C02_xor_ro_partial K a b ha hb
+  · exact C02_xor_rr_partial K a b ha hb
+  · exact C02_xor_ao_partial K a b ha hb
+  · exact C02_xor_ar_partial K a b ha hb
 
 /-- the wrappers of ops.rs delegate: `a | b` is `a |= b`, `a | &b` is `a |= &b`, `&a | b` is `b |= &a`;
     likewise for `&`; every owned/borrowed form of `-` is `a -= &b` except `&a - &b` / `&a - b`. -/
